@@ -121,6 +121,12 @@ func checkC20(p *Prog, r *Report) {
 	rStep := r.Rule("setup-steps-fatal", "every set-up step of rmain reports its error and exits non-zero")
 	rSwal := r.Rule("errors-not-swallowed", "along the start-up chain a tested error never leads to a success return unless reported; only allow-listed errors go untested")
 	rRest := r.Rule("restoration-not-bypassed", "cleanup is deferred first after the shell is set up; no exit call can skip it; New's own error paths clean up")
+	/* A damaged certificate cache is a start-up failure to be reported, not
+	a missing cache to be regenerated over (C08's rule, under this
+	property's "message naming the cause" clause). */
+	if load := p.Func(sstlsPkg, "", "LoadCachedCertificate"); nil != load {
+		checkC08Loader(p, r, r.Rule("damaged-cache-reported", "LoadCachedCertificate never reports a damaged cache as fs.ErrNotExist: the caller would take it for a missing one, regenerate silently and start with another key"), load)
+	}
 
 	/* 1a. */
 	nCalls, nUses := 0, 0
